@@ -207,7 +207,7 @@ def _make_solver(name, system, options):
     return getattr(S, name)(system, t1, DT, options=options)
 
 
-def run_once(solver, scen, flag, reuse, fail_at, mode="maxiter"):
+def run_once(solver, scen, flag, reuse, fail_at, mode="maxiter", second=False):
     """one execution under a fault plan.  Returns (outcome dict, plan)"""
     from cardillo.solver import SolverOptions
     from vp.core import faults
@@ -227,11 +227,21 @@ def run_once(solver, scen, flag, reuse, fail_at, mode="maxiter"):
     with capture() as rec:
         with faults.Interposer(plan, modules=cfg.get("modules", ()), dsv=cfg.get("dsv", False), scipy_mod=cfg.get("scipy_mod")):
             try:
-                sol = _make_solver(solver, system, options).solve()
+                sobj = _make_solver(solver, system, options)
+                sol = sobj.solve()
                 t = np.asarray(sol.t, float)
                 out["rows"] = int(len(t))
                 out["t_last"] = float(t[-1]) if len(t) else None
                 out["q_rows"] = int(np.asarray(sol.q).shape[0])
+                if second and fail_at:
+                    # the same solver object used again, now without any forced failure (no further index is in the plan)
+                    nw = len(rec["warns"])
+                    try:
+                        sol2 = sobj.solve()
+                        out["second_rows"] = int(len(np.asarray(sol2.t)))
+                    except Exception as e2:  # noqa
+                        out["second_raised"] = f"{type(e2).__name__}: {e2}"
+                    out["second_warn_msgs"] = [str(w.message) for w in rec["warns"][nw:]]
             except Exception as e:  # noqa: the contract allows any error
                 out["raised"] = f"{type(e).__name__}: {e}"
     out["warn_msgs"] = [str(w.message) for w in rec["warns"]]
@@ -402,8 +412,16 @@ def check(case):
     n_eff = 0
     evals = 0
     for fs in sets:
-        res, plan = run_once(solver, scen, flag, reuse, fs, mode=case.get("mode", "maxiter"))
+        second = (not flag) and case.get("mode", "maxiter") == "maxiter" and len(fs) == 1 and solver in ("BackwardEuler", "Rattle", "Moreau")
+        res, plan = run_once(solver, scen, flag, reuse, fs, mode=case.get("mode", "maxiter"), second=second)
         evals += 1
+        if second and res.get("second_rows") is not None and any(r["forced"] and r["effective"] for r in plan.log):
+            # a later, fault-free solve() of the same object: stopping early again needs a reason that is said
+            msgs2 = [m for m in res.get("second_warn_msgs", []) if m not in set(dry["warn_msgs"])]
+            if res["second_rows"] < full_rows and not msgs2:
+                fails.append(_fail(f"second solve() of the same solver object stops early without failure and without warning [{solver}]", case, fs, res, plan,
+                                   f"first call returned {res['rows']} rows after the forced failure; second call (no failure) returned {res['second_rows']} of {full_rows} rows, no warning"))
+            outcomes.add(f"{solver}:second_solve_checked")
         f, oc = judge(case, fs, res, plan, full_rows, set(dry["warn_msgs"]))
         outcomes.add(f"{solver}:{oc}")
         if oc != "void":
